@@ -11,6 +11,8 @@ BUILDS = {
     'REL': ['-O2', '-DNDEBUG'],
     'SEC': ['-O2', '-DNDEBUG', '-DMI_SECURE=4'],
     'DBG': ['-O1', '-DMI_DEBUG=3'],
+    # release semantics; undefined behaviour (signed overflow, bad shifts, misaligned / null member access, array bounds) traps
+    'UBS': ['-O1', '-DNDEBUG', '-fsanitize=undefined', '-fsanitize-undefined-trap-on-error'],
 }
 SEAMS = ['-DMI_VERIF_HOOKS="%s/mi_verif_hooks.h"' % SIM, '-DMI_PRIM_THREAD_ID=mi_sim_tid', '-DMI_PRIM_HAS_PROCESS_ATTACH',
          '-Dmmap=sim_mmap', '-Dmunmap=sim_munmap', '-Dmprotect=sim_mprotect', '-Dmadvise=sim_madvise',
@@ -37,7 +39,7 @@ def run(cmd):
         sys.stderr.write('BUILD FAILED: %s\n%s\n' % (' '.join(cmd), r.stdout)); raise SystemExit(2)
     return r.stdout
 
-def ensure(builds=('REL', 'SEC', 'DBG'), quiet=True):
+def ensure(builds=('REL', 'SEC', 'DBG', 'UBS'), quiet=True):
     hh = tree_hash()
     root = os.path.join(VERIF, 'build')
     out = os.path.join(root, hh)
